@@ -42,6 +42,19 @@ func main() {
 		}
 		return
 	}
+	// debugging aid: vcheck dump <file.h5> prints the logical dump through the library's reader
+	if len(os.Args) >= 3 && os.Args[1] == "dump" {
+		d := dump.File(os.Args[2], dump.Options{})
+		fmt.Printf("open: %+v\n", d.OpenRes)
+		for _, o := range d.Objects {
+			l := o.Logical()
+			if len(l) > 400 {
+				l = l[:400] + "…"
+			}
+			fmt.Println(l)
+		}
+		return
+	}
 	// debugging aid: vcheck specdec <file.h5> prints what the independent decoder finds
 	if len(os.Args) >= 3 && os.Args[1] == "specdec" {
 		for _, mode := range []string{"strict", "tolerant"} {
